@@ -98,6 +98,10 @@ def depth(t):
 
 
 def make_id(kind, i):
+    if kind == 'int':
+        return i            # list positions as ids: 0 is an id like any other
+    if kind == 'falsy':
+        return ('', 0, 1.5, 'x', 7, 'y', 8, 'z', 9)[i]
     if kind == 'short':
         return 'n%d' % i
     if kind == 'long':
@@ -274,10 +278,10 @@ def judge_state(res, ctx, E, out, cookie, via):
     want = model_rows(root_id, children, E, ctx.get('opt') == 'reverse')
     events = []
     tag = ctx['ids']
-    if shown != [k[-1] for k in want]:
+    if shown != [str(k[-1]) for k in want]:
         res.violate('rows', 'rows:%s' % tag,
-                    {'expanded': sorted(E), 'shown': shown,
-                     'expected': [k[-1] for k in want],
+                    {'expanded': sorted(E, key=repr), 'shown': shown,
+                     'expected': [str(k[-1]) for k in want],
                      'history': via}, sub)
         return None
     for ident, (_shown_id, links) in zip(want, rows):
@@ -299,7 +303,7 @@ def judge_state(res, ctx, E, out, cookie, via):
         if (kind == 'c') != (ident in E):
             res.violate('links', 'link-kind:%s' % tag,
                         {'node': ident, 'kind': kind, 'expanded':
-                         sorted(E), 'history': via}, sub)
+                         sorted(E, key=repr), 'history': via}, sub)
         try:
             path = decode_seq(param)
         except CaseTimeout:
@@ -321,8 +325,8 @@ def judge_state(res, ctx, E, out, cookie, via):
     got = state_ids(st, root_id) if isinstance(st, list) else st
     if got != E:
         res.violate('cookie', 'cookie:%s' % tag,
-                    {'expanded': sorted(E), 'cookie_decodes_to':
-                     sorted(got) if isinstance(got, set) else got,
+                    {'expanded': sorted(E, key=repr), 'cookie_decodes_to':
+                     sorted(got, key=repr) if isinstance(got, set) else got,
                      'history': via}, sub)
     return events
 
@@ -380,7 +384,7 @@ def explore(res, ctx, root, literal_depth):
                 if E2 in seen and seen[E2][0] != out2:
                     res.violate('history-independent',
                                 'differential:%s' % ctx['ids'],
-                                {'expanded': sorted(E2), 'history': h2},
+                                {'expanded': sorted(E2, key=repr), 'history': h2},
                                 {'shape': ctx['shape'], 'ids': ctx['ids'],
                                  'history': h2})
                 seen.setdefault(E2, (out2, ck2))
@@ -407,7 +411,7 @@ def explore(res, ctx, root, literal_depth):
             if E2 in seen and seen[E2][0] != out2:
                 res.violate('history-independent',
                             'differential:%s' % ctx['ids'],
-                            {'expanded': sorted(E2), 'history': h2},
+                            {'expanded': sorted(E2, key=repr), 'history': h2},
                             {'shape': ctx['shape'], 'ids': ctx['ids'],
                              'history': h2})
             seen.setdefault(E2, (out2, ck2))
@@ -465,9 +469,9 @@ def stale_clicks(res, ctx, root, seen, links_of):
                     (E2 - path) == (E - path - below)
             if not ok:
                 res.violate('links', 'stale:%s:%s' % (kind, ctx['ids']),
-                            {'expanded_before': sorted(E), 'clicked': [
+                            {'expanded_before': sorted(E, key=repr), 'clicked': [
                                 kind, list(ident)],
-                             'expanded_after': sorted(E2), 'history': h2},
+                             'expanded_after': sorted(E2, key=repr), 'history': h2},
                             sub)
     res.count('stale_clicks', n)
     return n
@@ -636,6 +640,10 @@ def cases(tier):
             # a tpValues attribute
             yield {'fam': 'click', 'shape': sh, 'ids': 'short-leafobj',
                    'literal': 3}
+        if nodes <= 6:
+            # ids that are numbers, among them 0 (list positions), and ''
+            yield {'fam': 'click', 'shape': sh, 'ids': 'int', 'literal': 3}
+            yield {'fam': 'click', 'shape': sh, 'ids': 'falsy', 'literal': 3}
         if nodes <= 6:
             # node ids that are unique among siblings only
             yield {'fam': 'click', 'shape': sh, 'ids': 'short-dup',
